@@ -1,4 +1,5 @@
 import PrimaiteModel.Model.Request
+import PrimaiteModel.Model.Schema
 open Primaite Primaite.Request
 
 mutual
@@ -31,6 +32,9 @@ def parseVals : List String → Option (List (Nat × Bool) × List String)
 
 def envOf (vals : List (Nat × Bool)) : Env := fun v _ => (vals.lookup v).getD false
 
+/-- keys arrive as `s:<quoted>` / `i:<n>`; contract tables use bare strings for string keys -/
+def decKey (k : String) : String := if k.startsWith "s:" then (k.drop 2).toString else k
+
 def showOutcome : Outcome → String
   | .unreachable d => s!"unreachable {d}"
   | .failure d v => s!"failure {d} {v}"
@@ -49,6 +53,21 @@ def step (t : Tree) : List String → Tree × String
         | .node kids => pathExistsK kids path
         | .leaf _ => true
       (t, s!"{showOutcome (dispatch env t path)} | valid={showBool (checkValid env t path)} | exists={showBool ex}")
+    | none => (t, "bad-op")
+  -- the hand-written contract tables (Model/Schema.lean), so that the rig's contract oracle reads them from Lean
+  -- tree edits: `edit add|remove <key>* -- <k>`: key order of a manager after `addKey` / `removeKey` (Model/Schema.lean)
+  | "edit" :: op :: toks =>
+    let keys := toks.takeWhile (· ≠ "--")
+    match toks.dropWhile (· ≠ "--") with
+    | ["--", k] =>
+      let kids : Kids := keys.map (fun x => (x, 0, Tree.leaf 0))
+      let res := if op = "add" then Schema.addKey k 1 (.leaf 1) kids else Schema.removeKey k kids
+      (t, " ".intercalate (res.map (fun e => e.1)))
+    | _ => (t, "bad-op")
+  | ["guards", action] => (t, " ".intercalate ((Schema.expectedGuards action).map Schema.VAtom.show))
+  | ["gate", root, key] =>
+    match Schema.Root.parse root with
+    | some r => (t, " ".intercalate ((Schema.gate r (decKey key)).map Schema.VAtom.show))
     | none => (t, "bad-op")
   | _ => (t, "bad-op")
 
